@@ -31,14 +31,27 @@ META = dict(
          "EVERY call and in every reachable wrapper state, and a ParseException fails just the element "
          "(body_exceptions_propagate, full strength since the fix 5ea5199 of the former finding "
          "indexerror_after_arity_found; its two halves are body_exceptions_propagate_probing / _found, and "
-         "indexError_after_found_propagates is the regression theorem for the repaired fast path). The call-line "
+         "indexError_after_found_propagates is the regression theorem for the repaired fast path). Nested wrappers "
+         "(an action whose body runs another wrapped action: inner_expr.parse_string in the body, trace_parse_action, "
+         "condition_as_parse_action given to set_parse_action, OnlyOnce; any depth): nest_pyLevel, "
+         "nested_probe_failure_traceback (when nothing binds at the inner action the TypeError arrives with "
+         "pa_call_line_synth as its INNERMOST traceback entry, the second entry - the one the code tests - is the "
+         "body frame) and nested_typeError_not_arity_probe (for every inner callable, glue and reachable wrapper "
+         "state the outer body is entered exactly once, the inner wrapper is invoked once, TypeError leaves). The call-line "
          "arithmetic (LINE_DIFF) is a generated-fact obligation (live_call_line). Gating: in the mini expression "
          "language (Or two passes, Each, SkipTo scan + fail_on, stop_on, NotAny/FollowedBy, Opt, ZeroOrMore, And, "
          "MatchFirst) fired_ids_firable proves by induction for all expressions/inputs that an action fires only "
          "where do_actions is on or its element has call_during_try (trial-matched positions count as off), hence "
          "no_actions_when_trying, or_/each_first_pass_fires_nothing, skipTo_scan_fires_nothing, "
          "skipTo_without_include_is_silent, stop_on_check_fires_nothing; action_loc_is_prestart_partial only states "
-         "that the loc argument is the element's pre_loc (whitespace skipping itself is by transcription).",
+         "that the loc argument is the element's pre_loc (whitespace skipping itself is by transcription). The "
+         "element's action configuration is a state machine over set_parse_action / add_parse_action / add_condition / "
+         "set_parse_action(None) / copy (runOps): set_parse_action_replaces (after set_parse_action(fns, k) the "
+         "actions are fns and the gate flag is exactly k, for every earlier history), add_never_clears, "
+         "flag_after_history / flag_without_set (full characterisation of the flag), acts_after_history, "
+         "replaced_action_silent_when_trying and history_fires_only_current_actions (full strength, every history); "
+         "clear_keeps_flag records what the code does for set_parse_action(None) (flag left on - a candidate finding "
+         "reported to the lead, generators stay out of 'clear while the flag is set').",
     note="Trusted: Lean kernel; axioms propext/Classical.choice/Quot.sound; CPython traceback frame layout (a binding "
          "failure raises at the call line with no callee frame; a Python-level body contributes its own frame) is an "
          "assumption of the model checked only differentially; the TrimArity and ActionGate models are transcriptions "
@@ -62,6 +75,9 @@ THEOREMS = [
     "PP.TrimArity.body_exceptions_propagate_probing",
     "PP.TrimArity.body_exceptions_propagate_found",
     "PP.TrimArity.indexError_after_found_propagates",
+    "PP.TrimArity.nest_pyLevel",
+    "PP.TrimArity.nested_probe_failure_traceback",
+    "PP.TrimArity.nested_typeError_not_arity_probe",
     "PP.TrimArity.return_value_protocol",
     "PP.TrimArity.condition_protocol",
     "PP.ActionGate.fired_ids_firable",
@@ -73,9 +89,23 @@ THEOREMS = [
     "PP.ActionGate.stop_on_check_fires_nothing",
     "PP.ActionGate.or_each_skipto_stopon_fire_only_real",
     "PP.ActionGate.action_loc_is_prestart_partial",
+    "PP.ActionGate.set_parse_action_replaces",
+    "PP.ActionGate.add_never_clears",
+    "PP.ActionGate.flag_after_history",
+    "PP.ActionGate.flag_without_set",
+    "PP.ActionGate.acts_after_history",
+    "PP.ActionGate.replaced_action_silent_when_trying",
+    "PP.ActionGate.history_fires_only_current_actions",
+    "PP.ActionGate.clear_keeps_flag",
 ]
 
 SIG_INDEX = "indexerror_after_arity_found"
+# candidate findings on the unchanged tree (reported to the lead; counted as KNOWN-FINDING only once registered in
+# known_findings.json under these signatures, otherwise just recorded in the evidence notes).  The generators stay out
+# of both regions: `set_parse_action(None)` while callDuringTry is set / an element's already wrapped parseAction
+# entries given to set_parse_action or add_parse_action again.
+SIG_CLEAR = "call_during_try_survives_clear"
+SIG_REWRAP = "rewrapped_action_typeerror_reprobed"
 CORPUS = common.VERIF / "corpus" / "C13"
 
 
@@ -206,12 +236,32 @@ class Plan:
         self.beh = ("ret", "none")
         self.log = []
         self.raised = None
+        # nested wrappers: ("nest", depth) runs `nested_fn` `depth` helper frames below the body, then behaves as `after`
+        self.nested_fn = None
+        self.after = ("ret", "none")
+        self.nested_exc = None
 
     def core(self, args):
         """called from the body with the tuple of positional arguments it received; returns an instruction the
         body executes in its own frame (so depth 0 really is the body's frame)"""
         self.log.append(args)
-        b = self.beh
+        if self.beh[0] == "nest":
+            return ("nest", self._nested, self.beh[1])
+        return self._instr(self.beh, args)
+
+    def _nested(self, depth):
+        """called from the body's own frame: the nested call (another element's parse_string) is made depth+1 frames
+        below the body; what it raises passes through the body untouched.  Returns the follow-up instruction."""
+        if depth > 0:
+            return self._nested(depth - 1)
+        try:
+            self.nested_fn()
+        except BaseException as x:  # noqa
+            self.nested_exc = x
+            raise
+        return self._instr(self.after, self.log[-1])
+
+    def _instr(self, b, args):
         if b[0] == "ret":
             if b[1] == "none":
                 return ("ret", None)
@@ -234,6 +284,8 @@ class Plan:
 
 _BODY = """
     _i = _plan.core(({tup}))
+    if _i[0] == 'nest':
+        _i = _i[1](_i[2])
     if _i[0] == 'raise':
         raise _i[1]
     if _i[0] == 'badcall':
@@ -287,6 +339,7 @@ def build_callable(kind, k, plan):
         # ( `_two(1)`, `[][0]` ), everything else is raised by a helper one frame below
         tup = "".join(n + ", " for n in names)
         src = (f"lambda {ps}: (_i := _plan.core(({tup})), "
+               "(_i := _i[1](_i[2])) if _i[0] == 'nest' else None, "
                "_two(1) if _i[0] == 'badcall' and _i[1] == 0 else None, "
                "_deepcall(_i[1]) if _i[0] == 'badcall' else None, "
                "[][0] if _i[0] == 'raise' and type(_i[1]) is IndexError else None, "
@@ -332,11 +385,15 @@ def build_callable(kind, k, plan):
     if kind == "kwonly":
         ns = _mk_func(plan, ", ".join(names + ["*", "kw=1"]), names)
         return ns["f"], acc, False
+    if kind == "kwreq":
+        # a required keyword-only parameter: no positional call binds
+        ns = _mk_func(plan, ", ".join(names + ["*", "kw"]), names)
+        return ns["f"], [], False
     raise ValueError(kind)
 
 
 KINDS = ["def", "lambda", "bound", "static-cls", "static-inst", "classmethod", "partial", "partial-kw", "callobj",
-         "class", "varargs", "defaults", "kwonly"]
+         "class", "varargs", "defaults", "kwonly", "kwreq"]
 
 
 def beh_frames(kind, name, depth):
@@ -380,40 +437,49 @@ def run_real(pp, mode, kind, k, behs):
         if beh[0] == "raise":
             beh = beh + (make_exc(pp, beh[1]),)
         plan.beh = beh
-        try:
-            r = common.with_alarm(5, e.parse_string, INPUT)
-            lst = r.as_list()
-            if lst == TOKS:
-                top = [Sym("returns"), Sym("matched")]
-            elif is_class and len(lst) == 1 and type(lst[0]).__name__ == "K":
-                top = [Sym("returns"), [Sym("replaced"), 99]]
-            elif lst == [0] and type(lst[0]) is int:
-                top = [Sym("returns"), [Sym("replaced"), 0]]
-            elif len(lst) == 1 and isinstance(lst[0], str) and lst[0].startswith("R"):
-                top = [Sym("returns"), [Sym("replaced"), int(lst[0][1:])]]
-            else:
-                top = [Sym("returns"), [Sym("other"), repr(lst)]]
-        except common.CaseTimeout:
-            top = [Sym("hang")]
-        except BaseException as x:  # noqa
-            c = classify_exc(pp, x)
-            top = [Sym("raises"), Sym(c)]
-            if c in ("T", "I", "O1", "O2", "F") and kind != "lambda" and plan.raised is not None and x is not plan.raised:
-                top.append(Sym("not-the-raised-object"))
-        runs = []
-        for args in plan.log:
-            kk = len(args)
-            want = (INPUT, LOC, None)[3 - kk:] if kk <= 3 else None
-            ok = want is not None
-            if ok:
-                for got, w, pos in zip(args, want, range(3 - kk, 3)):
-                    if pos == 2:
-                        ok = ok and isinstance(got, pp.ParseResults) and got.as_list() == TOKS
-                    else:
-                        ok = ok and got == w and type(got) is type(w)
-            runs.append([Sym("r"), kk] if ok else [Sym("r"), kk, Sym("BAD-ARGS"), repr(args)[:80]])
-        out.append([runs, top])
+        top, x = parse_top(pp, e, is_class)
+        if x is not None and sx(top[1]) in ("T", "I", "O1", "O2", "F") and kind != "lambda" \
+                and plan.raised is not None and x is not plan.raised:
+            top.append(Sym("not-the-raised-object"))
+        out.append([runs_of(pp, plan.log), top])
     return out, acc, is_class
+
+
+def parse_top(pp, e, is_class):
+    """e.parse_string(INPUT) -> (canonical outcome, the exception object or None)"""
+    try:
+        r = common.with_alarm(5, e.parse_string, INPUT)
+        lst = r.as_list()
+        if lst == TOKS:
+            return [Sym("returns"), Sym("matched")], None
+        if is_class and len(lst) == 1 and type(lst[0]).__name__ == "K":
+            return [Sym("returns"), [Sym("replaced"), 99]], None
+        if lst == [0] and type(lst[0]) is int:
+            return [Sym("returns"), [Sym("replaced"), 0]], None
+        if len(lst) == 1 and isinstance(lst[0], str) and lst[0].startswith("R"):
+            return [Sym("returns"), [Sym("replaced"), int(lst[0][1:])]], None
+        return [Sym("returns"), [Sym("other"), repr(lst)]], None
+    except common.CaseTimeout:
+        return [Sym("hang")], None
+    except BaseException as x:  # noqa
+        return [Sym("raises"), Sym(classify_exc(pp, x))], x
+
+
+def runs_of(pp, log):
+    """the body runs: argument count, and that the arguments are the trailing ones of (s, loc, toks)"""
+    runs = []
+    for args in log:
+        kk = len(args)
+        want = (INPUT, LOC, None)[3 - kk:] if kk <= 3 else None
+        ok = want is not None
+        if ok:
+            for got, w, pos in zip(args, want, range(3 - kk, 3)):
+                if pos == 2:
+                    ok = ok and isinstance(got, pp.ParseResults) and got.as_list() == TOKS
+                else:
+                    ok = ok and got == w and type(got) is type(w)
+        runs.append([Sym("r"), kk] if ok else [Sym("r"), kk, Sym("BAD-ARGS"), repr(args)[:80]])
+    return runs
 
 
 def model_line(mode, cfg, kind, acc, is_class, behs):
@@ -482,6 +548,311 @@ def oracle_trim(mode, acc, is_class, behs, obs):
 
 
 # ================================================================================================
+# nested wrappers (PP.TrimArity.Nest): an action whose body runs another wrapped action
+# ================================================================================================
+NEST_SCEN = ["pstr", "pstr-cond", "trace", "cond", "condfatal", "once"]
+# pstr       the body of a user's callable (any kind / arity) calls inner_expr.parse_string(...); inner_expr has an action
+# pstr-cond  same, inner_expr has a condition (add_condition)
+# trace      set_parse_action(trace_parse_action(g))
+# cond(fatal) set_parse_action(condition_as_parse_action(g, fatal=...))
+# once       set_parse_action(OnlyOnce(g))
+INNER_IS_COND = {"pstr": False, "pstr-cond": True, "trace": False, "cond": True, "condfatal": True, "once": False}
+CLEVEL_INNER = {
+    # name: (callable, accepted counts, model behaviour per argument count, what the nested call does)
+    "ord": (ord, [1], {1: [Sym("raise"), Sym("T")]}, ("raise", "T")),
+    "int": (int, [0, 1, 2], {2: [Sym("raise"), Sym("T")], 1: [Sym("raise"), Sym("T")], 0: [Sym("ret"), 0]}, ("ret", 0)),
+}
+
+
+def build_inner(ispec, plan):
+    """(callable, accepted counts, is_class, clevel name or None)"""
+    if ispec[0] == "c":
+        fn, acc, _, _ = CLEVEL_INNER[ispec[1]]
+        return fn, acc, False, ispec[1]
+    fn, acc, is_class = build_callable(ispec[1], ispec[2], plan)
+    return fn, acc, is_class, None
+
+
+def inner_reference_error(pp, scen, ispec):
+    """message of the TypeError the inner action raises when it is used on its own (nothing binds / C-level refusal)"""
+    g, _, _, _ = build_inner(ispec, Plan())
+    e = pp.Word("ab")
+    if scen == "pstr-cond":
+        e.add_condition(g, message="cond")
+    else:
+        e.set_parse_action(g)
+    try:
+        common.with_alarm(5, e.parse_string, INPUT)
+    except TypeError as x:
+        return str(x)
+    except Exception:  # noqa
+        return None
+    return None
+
+
+class _Quiet:
+    """trace_parse_action writes to sys.stderr"""
+
+    def __enter__(self):
+        self.old = sys.stderr
+        sys.stderr = self
+
+    def __exit__(self, *a):
+        sys.stderr = self.old
+
+    def write(self, *_):
+        pass
+
+    def flush(self):
+        pass
+
+
+def run_nest_real(pp, scen, okind, ok, ispec, invs):
+    """one outer element, one outer wrapper, one inner wrapper; len(invs) parse_string calls.
+    invs: [(inner behaviour, depth of the nested call below the body, behaviour of the outer body afterwards)]
+    Per invocation: [outer body runs | na, inner body runs, outcome]"""
+    oplan, iplan = Plan(), Plan()
+    g, iacc, i_is_class, clevel = build_inner(ispec, iplan)
+    o_is_class, once = False, None
+    if scen in ("pstr", "pstr-cond"):
+        inner = pp.Word("ab")
+        if scen == "pstr":
+            inner.set_parse_action(g)
+        else:
+            inner.add_condition(g, message="cond")
+        fn, oacc, o_is_class = build_callable(okind, ok, oplan)
+        oplan.nested_fn = lambda: inner.parse_string(INPUT)
+    elif scen == "trace":
+        fn, oacc = pp.trace_parse_action(g), [0, 1, 2, 3]
+    elif scen in ("cond", "condfatal"):
+        fn, oacc = pp.condition_as_parse_action(g, message="cond", fatal=(scen == "condfatal")), [3]
+    else:
+        fn = once = pp.OnlyOnce(g)
+        oacc = [3]
+    e = pp.Word("ab").set_parse_action(fn)
+    ref = None
+    out = []
+    for ibeh, depth, after in invs:
+        if ibeh[0] == "raise":
+            ibeh = tuple(ibeh) + (make_exc(pp, ibeh[1]),)
+        if after[0] == "raise":
+            after = tuple(after) + (make_exc(pp, after[1]),)
+        for pl in (oplan, iplan):
+            pl.log, pl.raised, pl.nested_exc = [], None, None
+        iplan.beh = tuple(ibeh)
+        oplan.beh, oplan.after = ("nest", depth), tuple(after)
+        if once is not None:
+            once.reset()
+        with _Quiet():
+            top, x = parse_top(pp, e, o_is_class or (i_is_class and scen in ("trace", "once")))
+        if x is not None and sx(top[1]) in ("T", "I", "O1", "O2", "F"):
+            # the exception that leaves is the very object raised below the outer action's frame
+            if scen in ("pstr", "pstr-cond"):
+                src = oplan.nested_exc if oplan.nested_exc is not None else oplan.raised
+                lam = okind == "lambda" and oplan.nested_exc is None
+            else:
+                src, lam = iplan.raised, (ispec[0] == "py" and ispec[1] == "lambda")
+            if src is not None and not lam and x is not src:
+                top.append(Sym("not-the-raised-object"))
+            elif src is None and sx(top[1]) == "T" and not iplan.log and scen not in ("pstr", "pstr-cond"):
+                # a TypeError from calling g (nothing binds): no object to compare with, compare with what g raises
+                # when it is the action of a plain element
+                if ref is None:
+                    ref = inner_reference_error(pp, scen, ispec) or ""
+                if str(x) != ref:
+                    top.append(Sym("not-the-inner-error"))
+        oruns = runs_of(pp, oplan.log) if scen in ("pstr", "pstr-cond") else Sym("na")
+        out.append([oruns, Sym("na") if clevel else runs_of(pp, iplan.log), top])
+    return out, oacc, o_is_class, iacc, i_is_class, clevel
+
+
+def nest_model_line(cfg, scen, okind, oacc, o_is_class, ispec, iacc, i_is_class, clevel, invs):
+    items = []
+    imode = "cond" if INNER_IS_COND[scen] else "act"
+    for ibeh, depth, after in invs:
+        if scen in ("pstr", "pstr-cond"):
+            bf, glue, ias = [7, 1], [[7, 2]] * (depth + 2) + [[0, 1], [0, 2]], [3, 3, 3, 3]
+        else:
+            bf, glue = ([2, 1] if scen == "once" else [0, 1]), []
+            ias = [Sym("none"), Sym("none"), Sym("none"), 3]
+        if scen == "pstr":
+            if after[0] == "ret":
+                a = [Sym("ret"), 99 if o_is_class else (Sym(after[1]) if isinstance(after[1], str) else after[1])]
+            else:
+                a = [Sym("raise"), Sym(MODEL_EXC[after[1]])]
+        elif scen in ("trace", "once"):
+            a = Sym("pass")
+        else:
+            a = Sym("condfatal" if scen == "condfatal" else "cond")
+        if clevel:
+            behs = [CLEVEL_INNER[clevel][2].get(k, [Sym("ret"), Sym("none")]) for k in range(4)]
+        else:
+            mb = model_beh(imode, ispec[1], i_is_class, tuple(ibeh))
+            behs = [mb, mb, mb, mb]
+        items.append([oacc, bf, glue, ias, Sym("O1"), a, iacc, behs])
+    return sx(Sym("nest"), cfg, 3, [False, 0], [False, 0], *items)
+
+
+def project_nest(out_line, scen, clevel=False):
+    try:
+        items = loads(out_line)
+    except Exception:
+        return out_line
+    res = []
+    for oevs, ievs, _elem, top, _f, _l, _if, _il in items:
+        oruns = [[Sym("r"), ev[1]] for ev in oevs if ev[0] == "r"] if scen in ("pstr", "pstr-cond") else Sym("na")
+        iruns = Sym("na") if clevel else [[Sym("r"), ev[1]] for l in ievs for ev in l if ev[0] == "r"]
+        res.append([oruns, iruns, top])
+    return sx(res)
+
+
+def oracle_nest(scen, oacc, o_is_class, iacc, i_is_class, clevel, invs, obs):
+    """the nested theorems on the real observation: the outer body is entered exactly once with the trailing
+    arguments it accepts, the inner action is invoked exactly once, and what the nested call raises — in particular
+    the TypeError of an inner action that cannot be called — is what leaves parse_string"""
+    oks = [k for k in (3, 2, 1, 0) if k in oacc]
+    iks = [k for k in (3, 2, 1, 0) if k in iacc]
+    for i, ((ibeh, _depth, after), (oruns, iruns, top)) in enumerate(zip(invs, obs)):
+        top_s = sx(top)
+        if not oks:
+            if oruns != [] or iruns not in ([], "na") or top_s != "(raises T)":
+                return (f"invocation {i}: no argument count binds at the outer action, expected no body run and the "
+                        f"binding TypeError, got runs {sx(oruns)} / {sx(iruns)}, {top_s}",
+                        "no_accepted_arity_raises_typeError")
+            continue
+        if oruns != "na" and [sx(r) for r in oruns] != [f"(r {oks[0]})"]:
+            return (f"invocation {i}: the outer action's body must be entered exactly once with the trailing {oks[0]} "
+                    f"of (s, loc, toks); it ran {sx(oruns)} (outcome {top_s})",
+                    "nested_typeError_not_arity_probe / called_once_with_trailing_args")
+        # what the nested call does
+        if clevel:
+            nested = CLEVEL_INNER[clevel][3]
+        elif not iks:
+            nested = ("raise", "T")
+            if iruns != []:
+                return (f"invocation {i}: inner action ran although nothing binds: {sx(iruns)}",
+                        "no_accepted_arity_raises_typeError")
+        else:
+            if [sx(r) for r in iruns] != [f"(r {iks[0]})"]:
+                return (f"invocation {i}: the inner action must run exactly once with the trailing {iks[0]} arguments; "
+                        f"it ran {sx(iruns)} (outcome {top_s})", "nested_typeError_not_arity_probe (inner wrapper "
+                        "invoked once) / called_once_with_trailing_args")
+            nested = ("raise", MODEL_EXC[ibeh[1]]) if ibeh[0] == "raise" else ("ret", ibeh[1])
+        if nested[0] == "raise":
+            want = f"(raises {nested[1]})"
+            thm = "nested_typeError_not_arity_probe" if nested[1] == "T" else "body_exceptions_propagate"
+        else:
+            v = nested[1]
+            if scen == "pstr" or (scen == "pstr-cond" and (v == "T" or i_is_class)):
+                if after[0] == "raise":
+                    want = f"(raises {MODEL_EXC[after[1]]})"
+                elif o_is_class:
+                    want = "(returns (replaced 99))"
+                else:
+                    want = "(returns matched)" if after[1] in ("none", "same") else f"(returns (replaced {after[1]}))"
+                thm = "return_value_protocol / body_exceptions_propagate"
+            elif scen == "pstr-cond":
+                want, thm = "(raises P)", "condition_protocol"
+            elif scen in ("trace", "once"):
+                want = "(returns (replaced 99))" if i_is_class else \
+                    ("(returns matched)" if v in ("none", "same") else f"(returns (replaced {v}))")
+                thm = "return_value_protocol"
+            else:
+                truthy = i_is_class or v == "T"
+                want = "(returns matched)" if truthy else ("(raises F)" if scen == "condfatal" else "(raises P)")
+                thm = "condition_protocol"
+        if top_s != want:
+            return (f"invocation {i}: the nested call {'raises ' + nested[1] if nested[0] == 'raise' else 'returns'}; "
+                    f"expected {want} out of parse_string, got {top_s}", thm)
+    return None
+
+
+NEST_OUTERS = [("varargs", 0), ("def", 0), ("def", 1), ("def", 2), ("def", 3), ("def", 4), ("lambda", 1), ("lambda", 3), ("bound", 2),
+               ("static-cls", 1), ("classmethod", 3), ("partial", 1), ("partial-kw", 2), ("callobj", 3), ("class", 1),
+               ("varargs", 2), ("defaults", 1), ("kwonly", 2), ("kwreq", 1)]
+NEST_INNERS_REJECT = [("py", "def", 4), ("py", "kwreq", 1), ("py", "kwreq", 3), ("py", "lambda", 4), ("py", "bound", 4),
+                      ("py", "class", 4), ("c", "ord")]
+NEST_INNERS_OTHER = [("py", kind, k) for kind in ("def", "lambda", "bound", "partial", "callobj", "class", "varargs",
+                                                  "defaults", "kwonly", "classmethod")
+                     for k in (0, 1, 2, 3)] + [("c", "int")]
+NEST_AFTERS = [("ret", "none"), ("ret", 5), ("ret", 0), ("raise", "T", 0), ("raise", "I", 0), ("raise", "P", 0),
+               ("raise", "O1", 0)]
+
+
+def _nest_inv(rng, scen, reject):
+    if INNER_IS_COND[scen]:
+        rets = RETS_COND
+    else:
+        rets = [("ret", "none"), ("ret", 5), ("ret", 0)] + ([("ret", "same")] if scen in ("trace", "once") else [])
+    ibeh = rng.choice(rets) if (reject or rng.random() < 0.45) else rng.choice(raises())
+    after = rng.choice(NEST_AFTERS) if scen == "pstr" else ("ret", "none")
+    return (ibeh, rng.choice([0, 0, 1, 2]), after)
+
+
+def gen_nest_cases(ctx, n, tag="nest", systematic=True):
+    rng = ctx.subrng(tag)
+    cases = []
+    if systematic:
+        # the region where the innermost traceback entry is the (inner) wrapper's call line: nothing binds at the
+        # inner action, for every kind of outer action
+        for scen in NEST_SCEN:
+            for o in (NEST_OUTERS if scen.startswith("pstr") else [("lib", 3)]):
+                for ispec in NEST_INNERS_REJECT:
+                    inv = _nest_inv(rng, scen, True)
+                    cases.append((scen, o[0], o[1], ispec, [inv, _nest_inv(rng, scen, True)]))
+    for _ in range(n):
+        scen = rng.choice(NEST_SCEN + ["pstr"])
+        o = rng.choice(NEST_OUTERS) if scen.startswith("pstr") else ("lib", 3)
+        reject = rng.random() < 0.35
+        ispec = rng.choice(NEST_INNERS_REJECT if reject else NEST_INNERS_OTHER)
+        invs = [_nest_inv(rng, scen, reject) for _ in range(rng.choice([1, 2, 2, 3]))]
+        invs = [((("ret", "none") if (ib == ("ret", "same") and ispec[0] == "py" and ispec[2] == 0) else ib), d, a)
+                for ib, d, a in invs]
+        cases.append((scen, o[0], o[1], ispec, invs))
+    # an outer class returns its instance whatever the nested condition says: not expressible as `cond` continuation
+    return [c for c in cases if not (c[0] == "pstr-cond" and c[1] == "class")]
+
+
+def _nest_case_json(c):
+    scen, okind, ok, ispec, invs = c
+    return {"scenario": scen, "outer": [okind, ok], "inner": list(ispec),
+            "invs": [[list(ib), d, list(a)] for ib, d, a in invs]}
+
+
+def _nest_case_of(j):
+    return (j["scenario"], j["outer"][0], j["outer"][1], tuple(j["inner"]),
+            [(tuple(ib), d, tuple(a)) for ib, d, a in j["invs"]])
+
+
+def check_nest(ctx, pp, cfg, cases, stream="nest", correspond=True):
+    lines, impl, js, scens = [], [], [], []
+    n_fail = 0
+    seen_scen = set()
+    for c in cases:
+        scen, okind, ok, ispec, invs = c
+        obs, oacc, o_is_class, iacc, i_is_class, clevel = run_nest_real(pp, scen, okind, ok, ispec, invs)
+        lines.append(nest_model_line(cfg, scen, okind, oacc, o_is_class, ispec, iacc, i_is_class, clevel, invs))
+        impl.append(sx(obs))
+        js.append(_nest_case_json(c))
+        scens.append(scen)
+        bad = oracle_nest(scen, oacc, o_is_class, iacc, i_is_class, clevel, invs, obs)
+        if bad and n_fail < 3 and scen not in seen_scen:
+            n_fail += 1
+            seen_scen.add(scen)
+            ctx.fail_input("exception raised below a parse action's frame (nested parse action) not propagated unchanged",
+                           _nest_case_json(c), bad[0], sx(obs), theorem="PP.TrimArity." + bad[1],
+                           how="harness/props/c13.py run_nest_real(scenario, outer kind, outer arity, inner, invs)")
+    if not correspond:
+        ctx.count_cases(stream, len(cases), distinct_keys=[json.dumps(j, sort_keys=True) for j in js],
+                        samples=js[:2])
+        return []
+    mouts = [project_nest(o, sc, j["inner"][0] == "c") for o, sc, j in zip(ctx.driver.run_sharded(lines), scens, js)]
+    diffs = ctx.correspond(stream, js, lines, impl, model_outputs=mouts, nontrivial=lambda c, o: True,
+                           outcome_of=lambda c, o: f"{c['scenario']}/{c['inner'][1]}")
+    return [cases[i] for i in diffs]
+
+
+# ================================================================================================
 # generators
 # ================================================================================================
 RETS_ACT = [("ret", "none"), ("ret", "same"), ("ret", 5), ("ret", 0)]
@@ -547,6 +918,8 @@ def nullable(t):
         return False
     if k == "act":
         return nullable(t[3])
+    if k == "hist":
+        return nullable(t[2])
     if k == "seq":
         return nullable(t[1]) and nullable(t[2])
     if k == "alt":
@@ -561,9 +934,59 @@ def nullable(t):
 
 
 def strip_act(t):
-    while t[0] == "act":
-        t = t[3]
+    while t[0] in DECO:
+        t = t[3] if t[0] == "act" else t[2]
     return t
+
+
+# ---- an element's action configuration as a history of operations (PP.ActionGate.Op / runOps) ------------------
+DECO = ("act", "hist")
+KW_SPELL = ("call_during_try", "callDuringTry")
+
+
+def op_kw(op):
+    return bool(op.get("kw")) if op["op"] in ("set", "add", "cond") else False
+
+
+def hist_cfg(ops):
+    """(installed actions, call_during_try) the documented way: set_parse_action replaces both, add_* append and
+    or the keyword in, set_parse_action(None) removes all actions (and what belonged to them), copy keeps.
+    Equals PP.ActionGate.runOps on every history without `clear while the flag is set` (flag_after_history,
+    acts_after_history); the generators stay out of that region."""
+    acts, cdt = [], False
+    for op in ops:
+        o = op["op"]
+        if o == "set":
+            acts, cdt = list(op["acts"]), op_kw(op)
+        elif o in ("add", "cond"):
+            acts, cdt = acts + list(op["acts"]), cdt or op_kw(op)
+        elif o == "clear":
+            acts, cdt = [], False
+    return acts, cdt
+
+
+def hist_in_clear_region(ops):
+    """set_parse_action(None) while callDuringTry is set (the code leaves the flag on: candidate finding)"""
+    cdt = False
+    for op in ops:
+        o = op["op"]
+        if o == "set":
+            cdt = op_kw(op)
+        elif o in ("add", "cond"):
+            cdt = cdt or op_kw(op)
+        elif o == "clear" and cdt:
+            return True
+    return False
+
+
+def op_sexp(op):
+    o = op["op"]
+    if o == "clear":
+        return Sym("clear")
+    if o in ("copy", "name"):
+        return Sym("copy")
+    kw = Sym("none") if op.get("kw") is None else bool(op["kw"])
+    return [Sym(o), [[a["id"], Sym(a["kind"])] for a in op["acts"]], kw]
 
 
 def tree_sexp(t):
@@ -572,6 +995,8 @@ def tree_sexp(t):
         return [Sym("lit"), t[1]]
     if k == "act":
         return [Sym("act"), [[a["id"], Sym(a["kind"])] for a in t[1]], bool(t[2]), tree_sexp(t[3])]
+    if k == "hist":
+        return [Sym("hist"), [op_sexp(op) for op in t[1]], tree_sexp(t[2])]
     if k in ("seq", "alt"):
         return [Sym(k), tree_sexp(t[1]), tree_sexp(t[2])]
     if k in ("or", "each"):
@@ -591,6 +1016,10 @@ def firable(t, da):
     if k == "act":
         own = {a["id"] for a in t[1]} if (da or t[2]) else set()
         return own | firable(t[3], da)
+    if k == "hist":
+        acts, cdt = hist_cfg(t[1])
+        own = {a["id"] for a in acts} if (da or cdt) else set()
+        return own | firable(t[2], da)
     if k in ("seq", "alt"):
         return firable(t[1], da) | firable(t[2], da)
     if k in ("or", "each"):
@@ -643,14 +1072,18 @@ def hook_first_pass(e, child_tree, log):
     return e
 
 
-def make_logger(pp, a, log):
-    """a real callable of shape a['shape'] that logs (id, loc or -1) and then behaves as a['kind']"""
+def make_logger(pp, a, log, as_cond=False):
+    """a real callable of shape a['shape'] that logs (id, loc or -1) and then behaves as a['kind'];
+    as_cond: a predicate for add_condition (keep = True; fail / fatal = False, the exception class comes from
+    add_condition's `fatal`)"""
     aid, kind, shape = a["id"], a["kind"], a["shape"]
 
     def core(s, l, have_s, have_l):
         log.append((aid, l if have_l else -1))
         if getattr(log, "trial", None):
             log.trial_events.append((aid, log.trial[-1]))
+        if as_cond and kind in ("keep", "fail", "fatal"):
+            return kind == "keep"
         if kind == "keep":
             return None
         if kind == "fail":
@@ -722,13 +1155,42 @@ def make_logger(pp, a, log):
 SHAPE_HAS_LOC = {sh: not sh.endswith(("1", "0")) for sh in ACTION_SHAPES}
 
 
+def apply_ops(pp, e, ops, log):
+    """the history of operations on one element, as a user would write it"""
+    for n, op in enumerate(ops):
+        o = op["op"]
+        if o == "clear":
+            e.set_parse_action(None)
+            continue
+        if o == "copy":
+            e = e.copy()
+            continue
+        if o == "name":
+            e = e("n%d" % n)
+            continue
+        kwargs = {} if op.get("kw") is None else {KW_SPELL[op.get("spell", 0)]: op["kw"]}
+        if o == "cond":
+            if op.get("fatal"):
+                kwargs["fatal"] = True
+            e.add_condition(*[make_logger(pp, a, log, as_cond=True) for a in op["acts"]], **kwargs)
+        else:
+            fns = [make_logger(pp, a, log) for a in op["acts"]]
+            (e.set_parse_action if o == "set" else e.add_parse_action)(*fns, **kwargs)
+    return e
+
+
 def build_real(pp, t, log):
     k = t[0]
     if k == "lit":
         return pp.Literal(t[1])
+    if k == "hist":
+        e = build_real(pp, t[2], log)
+        if t[2][0] in DECO:
+            e = pp.And([e])
+        return apply_ops(pp, e, t[1], log)
     if k == "act":
         e = build_real(pp, t[3], log)
-        if t[3][0] == "act":
+        if t[3][0] in DECO:
             e = pp.And([e])
         fns = [make_logger(pp, a, log) for a in t[1]]
         if fns:
@@ -770,6 +1232,10 @@ def acts_of(t, out=None):
     if t[0] == "act":
         for a in t[1]:
             out[a["id"]] = a
+    if t[0] == "hist":
+        for op in t[1]:
+            for a in op.get("acts", ()):
+                out[a["id"]] = a
     for x in t[1:]:
         if isinstance(x, (list, tuple)) and x and isinstance(x[0], str):
             acts_of(x, out)
@@ -831,9 +1297,59 @@ class TreeGen:
 
     def maybe_act(self, t, p=0.6):
         rng = self.rng
-        if t[0] != "act" and rng.random() < p:
+        if t[0] not in DECO and rng.random() < p:
+            if rng.random() < self.p_hist:
+                ops = self.history(focus=rng.random() < self.p_focus)
+                # an element left without actions is transparent: streamline() would merge it into a same-kind parent,
+                # which the mini-model does not do; configurations without actions only on literals
+                if (p >= 1.0 or t[0] != "lit") and not hist_cfg(ops)[0]:
+                    ops.append(self.one_op("add", None))
+                    ops[-1]["acts"] = ops[-1]["acts"] or self.act_list()
+                return ("hist", ops, t)
             return ("act", self.act_list(), rng.random() < 0.15, t)
         return t
+
+    p_hist = 0.3
+    p_focus = 0.35
+
+    def one_op(self, o, kw):
+        """operation `o` with keyword `kw` (None = not given)"""
+        rng = self.rng
+        op = {"op": o}
+        if o in ("set", "add", "cond"):
+            acts = self.act_list() if rng.random() < 0.93 else []
+            op["fatal"] = o == "cond" and rng.random() < 0.2
+            if o == "cond":
+                for a in acts:  # a falsy predicate raises what add_condition's `fatal` says
+                    if a["kind"] in ("fail", "fatal"):
+                        a["kind"] = "fatal" if op["fatal"] else "fail"
+            op.update(acts=acts, kw=kw, spell=rng.randrange(2))
+        return op
+
+    def history(self, focus=False):
+        """a sequence of operations on one element.  focus: some operation carries call_during_try=True and a later
+        set_parse_action comes without it (the flag must be gone)."""
+        rng = self.rng
+        ops = []
+        if focus:
+            pre = rng.choice(["set", "add", "cond", "cond"])
+            ops.append(self.one_op(pre, True))
+            if rng.random() < 0.3:
+                ops.append(self.one_op(rng.choice(["add", "cond", "copy", "name"]), rng.choice([None, None, False, True])))
+            ops.append(self.one_op("set", rng.choice([None, None, False])))
+            for _ in range(rng.choice([0, 0, 1])):
+                ops.append(self.one_op(rng.choice(["add", "cond", "copy", "name"]), rng.choice([None, False])))
+        else:
+            for _ in range(rng.choice([1, 2, 2, 3, 4])):
+                o = rng.choice(["set", "set", "add", "add", "cond", "clear", "copy", "name"])
+                ops.append(self.one_op(o, rng.choice([None, None, None, False, True])))
+        # stay out of `set_parse_action(None)` while the flag is set
+        while hist_in_clear_region(ops):
+            for i, op in enumerate(ops):
+                if op["op"] == "clear" and hist_in_clear_region(ops[: i + 1]):
+                    ops[i] = {"op": "copy"}
+                    break
+        return ops
 
     def nonnull(self, d):
         for _ in range(20):
@@ -893,6 +1409,8 @@ def sentence(rng, t, budget=8):
         return t[1]
     if k == "act":
         return sentence(rng, t[3], budget)
+    if k == "hist":
+        return sentence(rng, t[2], budget)
     if k == "seq":
         return sentence(rng, t[1]) + rng.choice(["", " "]) + sentence(rng, t[2])
     if k in ("alt",):
@@ -918,14 +1436,16 @@ def sentence(rng, t, budget=8):
     return rng.choice(["", "a", "b", "c"])  # not
 
 
-def gen_gate_cases(ctx):
-    rng = ctx.subrng("gate")
+def gen_gate_cases(ctx, tag="gate", n=None, p_hist=None, p_focus=None, depths=(1, 2, 2, 3, 3, 4)):
+    rng = ctx.subrng(tag)
     cases = []
-    for i in range(ctx.budget(2500, 40000)):
+    for i in range(ctx.budget(2500, 40000) if n is None else n):
         g = TreeGen(rng)
-        t = g.tree(rng.choice([1, 2, 2, 3, 3, 4]))
+        if p_hist is not None:
+            g.p_hist, g.p_focus = p_hist, p_focus
+        t = g.tree(rng.choice(depths))
         if not acts_of(t):
-            t = ("act", g.act_list(), False, t) if t[0] != "act" else t
+            t = ("act", g.act_list(), False, t) if t[0] not in DECO else ("act", g.act_list(), False, ("seq", t, ("lit", "a")))
         ins = set()
         for _ in range(3):
             s = sentence(rng, t)
@@ -959,12 +1479,13 @@ def oracle_gate(t, s, da, log):
     return None
 
 
-def check_gate(ctx, pp):
-    cases = gen_gate_cases(ctx)
+def check_gate(ctx, pp, stream="gate", cases=None, max_fail=3):
+    cases = gen_gate_cases(ctx) if cases is None else cases
     lines = [sx(Sym("gate"), tree_sexp(t), s, da) for t, s, da in cases]
     mouts = ctx.driver.run_sharded(lines)
     keep_c, keep_l, keep_m, impl, js = [], [], [], [], []
     n_fail = 0
+    seen_da = set()
     skipped = 0
     for (t, s, da), ln, mo in zip(cases, lines, mouts):
         if mo.startswith("(hang") or mo in ("bad-op", "bad-line"):
@@ -978,23 +1499,109 @@ def check_gate(ctx, pp):
         keep_l.append(ln)
         impl.append(io)
         js.append({"tree": sx(tree_sexp(t)), "shapes": {str(i): a["shape"] for i, a in acts.items()}, "s": s, "da": da,
-                   "_tree": t})
+                   "_case": (t, s, da)})
         bad = oracle_gate(t, s, da, log)
         if not bad and da:
             io2, log2 = run_gate_real(pp, t, s, True, via_parse_string=True)
             bad = oracle_gate(t, s, True, log2)
             if bad:
                 io = io2
-        if bad and n_fail < 3:
+        if bad and n_fail < max_fail and (max_fail >= 3 or da not in seen_da):
             n_fail += 1
+            seen_da.add(da)  # one trial-entry witness, one through a real parse (Or / Each / SkipTo / stop_on inside)
             ctx.fail_input("action fired during trial matching", {"tree": t, "s": s, "da": da}, bad[0], io,
                            theorem=bad[1], how="harness/props/c13.py run_gate_real(tree, s, da)")
-    for j in js:
-        j.pop("_tree")
-    ctx.notes["gate_skipped_model_hang"] = skipped
-    ctx.correspond("gate", js, keep_l, impl, model_outputs=keep_m,
-                   nontrivial=lambda c, o: "((" in o.split(" ", 1)[-1] or o.startswith("((ok"),
-                   outcome_of=lambda c, o: o.split(" ", 1)[0].lstrip("(").rstrip(")") + ("/da" if c["da"] else "/try"))
+    ctx.notes[stream + "_skipped_model_hang"] = skipped
+    kept = [j.pop("_case") for j in js]
+    diffs = ctx.correspond(stream, js, keep_l, impl, model_outputs=keep_m,
+                           nontrivial=lambda c, o: "((" in o.split(" ", 1)[-1] or o.startswith("((ok"),
+                           outcome_of=lambda c, o: o.split(" ", 1)[0].lstrip("(").rstrip(")") + ("/da" if c["da"] else "/try"))
+    return [kept[i] for i in diffs]
+
+
+# ---- operation histories on one element: the live attributes against PP.ActionGate.runOps ---------------------
+def gen_ops_cases(ctx, n, tag="gate-ops"):
+    rng = ctx.subrng(tag)
+    g = TreeGen(rng)
+    cases = []
+    for _ in range(n):
+        ops = g.history(focus=rng.random() < 0.5)
+        if rng.random() < 0.4:
+            ops = ops + g.history(focus=rng.random() < 0.5)
+        for op in ops:
+            for a in op.get("acts", ()):
+                a["kind"] = "keep"  # every installed action fires, in order, when the element matches for real
+        while hist_in_clear_region(ops):
+            i = next(i for i, op in enumerate(ops) if op["op"] == "clear" and hist_in_clear_region(ops[: i + 1]))
+            ops[i] = {"op": "copy"}
+        cases.append((rng.choice(["lit", "word", "and"]), ops))
+    return cases
+
+
+def run_ops_real(pp, base, ops):
+    """after every operation: (ids fired by a real match, bool(callDuringTry), ids fired by a trial match)"""
+    log = Log()
+    e = {"lit": lambda: pp.Literal("a"), "word": lambda: pp.Word("a"),
+         "and": lambda: pp.And([pp.Literal("a")])}[base]()
+    out = []
+    for i in range(len(ops)):
+        e = apply_ops(pp, e, ops[i:i + 1], log)
+        del log[:]
+        try:
+            common.with_alarm(5, e.parse_string, "a")
+        except common.CaseTimeout:
+            raise
+        except Exception as x:  # noqa
+            log.append(("exc-" + type(x).__name__, 0))
+        real = [i_ for i_, _ in log]
+        del log[:]
+        try:
+            common.with_alarm(5, e.try_parse, "a", 0)
+        except common.CaseTimeout:
+            raise
+        except Exception as x:  # noqa
+            log.append(("exc-" + type(x).__name__, 0))
+        trial = [i_ for i_, _ in log]
+        out.append((real, bool(e.callDuringTry), trial))
+    return out
+
+
+def oracle_ops(ops, obs):
+    """flag_after_history / acts_after_history / replaced_action_silent_when_trying on the real element"""
+    for i, (real, _flag, trial) in enumerate(obs):
+        acts, cdt = hist_cfg(ops[: i + 1])
+        ids = [a["id"] for a in acts]
+        if real != ids:
+            return (f"after operation {i} ({ops[i]['op']}) a real match fires the actions {real}, installed are {ids}",
+                    "PP.ActionGate.acts_after_history / set_parse_action_replaces")
+        if not cdt and trial:
+            return (f"after operation {i} ({ops[i]['op']}) the element has no call_during_try in force, yet a trial "
+                    f"match (try_parse, do_actions=False) fires {trial}",
+                    "PP.ActionGate.replaced_action_silent_when_trying / flag_after_history")
+        if cdt and trial != ids:
+            return (f"after operation {i} call_during_try is in force, a trial match fires {trial}, expected {ids}",
+                    "PP.ActionGate.flag_after_history / add_never_clears")
+    return None
+
+
+def check_ops(ctx, pp, n, tag="gate-ops"):
+    cases = gen_ops_cases(ctx, n, tag)
+    lines = [sx(Sym("ops"), [op_sexp(op) for op in ops]) for _, ops in cases]
+    impl, js = [], []
+    n_fail = 0
+    for base, ops in cases:
+        obs = run_ops_real(pp, base, ops)
+        impl.append(sx([[real, flag] for real, flag, _ in obs]))
+        js.append({"base": base, "ops": ops})
+        bad = oracle_ops(ops, obs)
+        if bad and n_fail < 1:
+            n_fail += 1
+            ctx.fail_input("action configuration after a history of set_/add_ operations", {"base": base, "ops": ops},
+                           bad[0], sx([[r, f, t] for r, f, t in obs]), theorem=bad[1],
+                           how="harness/props/c13.py run_ops_real(base, ops)")
+    diffs = ctx.correspond("gate-ops", js, lines, impl,
+                           outcome_of=lambda c, o: "+".join(op["op"] for op in c["ops"][:3]))
+    return [cases[i] for i in diffs]
 
 
 # ================================================================================================
@@ -1096,6 +1703,30 @@ def replay_witnesses(ctx, pp, cfg):
         return
     for p in sorted(CORPUS.glob("*.json")):
         w = json.loads(p.read_text())
+        if w.get("stream") == "nest":
+            c = _nest_case_of(w)
+            obs, oacc, o_is_class, iacc, i_is_class, clevel = run_nest_real(pp, *c)
+            bad = oracle_nest(c[0], oacc, o_is_class, iacc, i_is_class, clevel, c[4], obs)
+            ctx.count_cases("corpus", 1, distinct_keys=[p.name], samples=[{"witness": p.name, "impl": sx(obs)}])
+            if bad:
+                ctx.fail_input("nested parse action: exception not propagated unchanged (corpus witness)",
+                               {**_nest_case_json(c), "file": p.name}, bad[0], sx(obs), theorem="PP.TrimArity." + bad[1])
+            line = nest_model_line(cfg, c[0], c[1], oacc, o_is_class, c[3], iacc, i_is_class, clevel, c[4])
+            ctx.correspond("corpus-nest", [_nest_case_json(c)], [line], [sx(obs)],
+                           model_outputs=[project_nest(ctx.driver.run([line])[0], c[0], c[3][0] == "c")])
+            continue
+        if w.get("stream") == "ops":
+            obs = run_ops_real(pp, w["base"], w["ops"])
+            bad = oracle_ops(w["ops"], obs)
+            ctx.count_cases("corpus", 1, distinct_keys=[p.name], samples=[{"witness": p.name}])
+            if bad:
+                ctx.fail_input("action configuration after a history of set_/add_ operations (corpus witness)",
+                               {"base": w["base"], "ops": w["ops"], "file": p.name}, bad[0],
+                               sx([[r, f, t] for r, f, t in obs]), theorem=bad[1])
+            ctx.correspond("corpus-ops", [{"base": w["base"], "ops": w["ops"]}],
+                           [sx(Sym("ops"), [op_sexp(op) for op in w["ops"]])],
+                           [sx([[real, flag] for real, flag, _ in obs])])
+            continue
         if w.get("stream") != "trim":
             continue
         behs = [tuple(b) for b in w["behs"]]
@@ -1131,18 +1762,138 @@ def run(ctx):
         "invocation sequences on one wrapper, including IndexError raised after an earlier call returned (the region "
         "of the fixed finding indexerror_after_arity_found, also replayed from corpus/C13 first); every case is "
         "non-trivial (one real parse_string per invocation)")
+    ctx.rule.append(
+        "nest: 6 nesting scenarios (inner_expr.parse_string in the body of 19 outer callables, the same with an inner "
+        "condition, trace_parse_action, condition_as_parse_action (+fatal), OnlyOnce) x inner actions that cannot be "
+        "called at all (4+ parameters, required keyword-only, ord) systematically + random inner kinds / behaviours, "
+        "1-3 invocations on the same pair of wrappers; observed: outer body runs, inner body runs, class AND identity "
+        "of what leaves parse_string; gate-hist / gate-ops: elements configured through random histories of "
+        "set_parse_action / add_parse_action / add_condition / set_parse_action(None) / copy / results name, each with "
+        "or without call_during_try (both spellings), matched inside every trial construct resp. compared attribute by "
+        "attribute (fired ids on a real match, callDuringTry, fired ids on try_parse) after every operation")
     replay_witnesses(ctx, pp, cfg)
     check_trim(ctx, pp, cfg)
+    seeds = {}
+    seeds["nest"] = check_nest(ctx, pp, cfg, gen_nest_cases(ctx, ctx.budget(3000, 40000)))
     check_clevel(ctx, pp, cfg)
     check_builtins(ctx, pp)
-    check_gate(ctx, pp)
+    # elements configured through histories of set_parse_action / add_parse_action / add_condition / copy
+    seeds["gate-ops"] = check_ops(ctx, pp, ctx.budget(800, 10000))
+    hist_cases = gen_gate_cases(ctx, tag="gate-hist", n=ctx.budget(600, 8000), p_hist=1.0, p_focus=0.7,
+                                depths=(1, 1, 2, 2, 3))
+    hist_cases.sort(key=lambda c: len(sx(tree_sexp(c[0]))))  # small grammars first: the first failing input is readable
+    seeds["gate-hist"] = check_gate(ctx, pp, stream="gate-hist", cases=hist_cases, max_fail=2)
+    seeds["gate"] = check_gate(ctx, pp)
+    candidate_findings(ctx, pp)
+    if ctx.broken and not ctx.fail_inputs:
+        deep_search(ctx, pp, cfg, seeds)
     ctx.assumptions.append("C13: CPython traceback layout (binding failure has no callee frame) is assumed by the model "
                            "and validated only by the correspondence run")
+
+
+def candidate_findings(ctx, pp):
+    """two histories outside the generators' region on which the unchanged tree was seen to break the statement"""
+    notes = {}
+    # A: set_parse_action(None) clears the actions, not the flag: a later plain add_parse_action runs on trial
+    ops = [{"op": "add", "acts": [{"id": 1, "kind": "keep", "shape": "def3"}], "kw": True, "spell": 0},
+           {"op": "clear"},
+           {"op": "add", "acts": [{"id": 2, "kind": "keep", "shape": "def3"}], "kw": None, "spell": 0}]
+    obs = run_ops_real(pp, "lit", ops)
+    bad = oracle_ops(ops, obs)
+    notes[SIG_CLEAR] = {"history": "e.add_parse_action(f, call_during_try=True); e.set_parse_action(None); "
+                                   "e.add_parse_action(g); e.try_parse('a')",
+                        "reproduces": bad is not None, "observed": sx([[r, f, t] for r, f, t in obs])}
+    if bad and ctx.match_known(SIG_CLEAR):
+        ctx.fail_input("action configuration after set_parse_action(None)", {"base": "lit", "ops": ops}, bad[0],
+                       notes[SIG_CLEAR]["observed"], theorem="PP.ActionGate.clear_keeps_flag", signature=SIG_CLEAR)
+    # B: b.set_parse_action(*a.parseAction): the action is a _trim_arity wrapper, its frame IS the call line
+    calls = []
+
+    def act(*a):
+        calls.append(len(a))
+        raise TypeError("boom")
+
+    a = pp.Word("ab").set_parse_action(act)
+    b = pp.Word("ab").set_parse_action(*a.parseAction)
+    try:
+        b.parse_string("ab")
+        got = "returns"
+    except BaseException as x:  # noqa
+        got = classify_exc(pp, x)
+    notes[SIG_REWRAP] = {"history": "a = Word('ab').set_parse_action(act); b = Word('ab').set_parse_action(*a.parseAction); "
+                                    "b.parse_string('ab')   # def act(*a): raise TypeError",
+                         "reproduces": calls != [3], "body_runs": list(calls), "raises": got}
+    if calls != [3] and ctx.match_known(SIG_REWRAP):
+        ctx.fail_input("TypeError in the body of a re-wrapped action re-probed", notes[SIG_REWRAP], "body runs [3]",
+                       str(calls), theorem="PP.TrimArity.called_once_with_trailing_args (PyLevel fails: the action's "
+                       "frame is the wrapper's call line)", signature=SIG_REWRAP)
+    ctx.notes["candidate_findings_outside_generators"] = notes
+
+
+def deep_search(ctx, pp, cfg, seeds):
+    """a proof obligation or a correspondence broke and the streams above met no failing input: look for one with a
+    bigger budget (oracles only), first around the cases on which model and code disagreed"""
+    ctx.notes["deep_search"] = {k: len(v) for k, v in seeds.items()}
+    # nested wrappers: every outer kind x every inner action that cannot be called x every scenario, longer sequences
+    rng = ctx.subrng("deep")
+    more = list(seeds.get("nest", []))[:200]
+    for c in list(more):
+        scen, okind, ok, ispec, invs = c
+        more.append((scen, okind, ok, ispec, invs + invs))
+    more += gen_nest_cases(ctx, ctx.budget(6000, 20000), tag="nest-deep")
+    check_nest(ctx, pp, cfg, more, stream="search-nest", correspond=False)
+    if ctx.fail_inputs:
+        return
+    # histories: every diffing tree again through parse_string and with the other do_actions, plus a bigger focused run
+    n_fail = 0
+    trees = [(t, s, da2) for t, s, da in list(seeds.get("gate-hist", []))[:300] + list(seeds.get("gate", []))[:300]
+             for da2 in (True, False)]
+    trees += gen_gate_cases(ctx, tag="gate-deep", n=ctx.budget(1500, 6000), p_hist=1.0, p_focus=0.9, depths=(1, 1, 2, 2))
+    for t, s_, da in trees:
+        for via in ((False, True) if da else (False,)):
+            io, log = run_gate_real(pp, t, s_, da, via_parse_string=via)
+            bad = oracle_gate(t, s_, da, log)
+            if bad and n_fail < 3:
+                n_fail += 1
+                ctx.fail_input("action fired during trial matching", {"tree": t, "s": s_, "da": da}, bad[0], io,
+                               theorem=bad[1], how="harness/props/c13.py run_gate_real(tree, s, da)")
+    ctx.count_cases("search-gate", len(trees))
+    if ctx.fail_inputs:
+        return
+    for base, ops in list(seeds.get("gate-ops", []))[:300] + gen_ops_cases(ctx, ctx.budget(3000, 10000), tag="ops-deep"):
+        bad = oracle_ops(ops, run_ops_real(pp, base, ops))
+        if bad and n_fail < 3:
+            n_fail += 1
+            ctx.fail_input("action configuration after a history of set_/add_ operations", {"base": base, "ops": ops},
+                           bad[0], "", theorem=bad[1], how="harness/props/c13.py run_ops_real(base, ops)")
+    # the single-wrapper stream with longer sequences
+    rng2 = ctx.subrng("trim-deep")
+    n_t = 0
+    for _ in range(ctx.budget(3000, 10000)):
+        mode = rng2.choice(["act", "cond", "condfatal"])
+        rets = RETS_ACT if mode == "act" else RETS_COND
+        kind, k = rng2.choice(KINDS), rng2.randrange(5)
+        if kind == "varargs" and k > 3:
+            continue
+        behs = [rng2.choice(rets + raises()) for _ in range(rng2.randint(3, 6))]
+        behs = [("ret", "none") if (b == ("ret", "same") and k == 0) else b for b in behs]
+        obs, acc, is_class = run_real(pp, mode, kind, k, behs)
+        n_t += 1
+        bad = oracle_trim(mode, acc, is_class, behs, obs)
+        if bad and n_fail < 3:
+            n_fail += 1
+            ctx.fail_input("parse action protocol broken", _trim_case_json((mode, kind, k, behs)), bad[0], sx(obs),
+                           theorem=bad[1], signature=bad[2], how="harness/props/c13.py run_real(mode, kind, k, behs)")
+    ctx.count_cases("search-trim", n_t)
 
 
 def replay(data):
     pp = common.import_pyparsing()
     case = data.get("case", {})
+    if "scenario" in case:
+        c = _nest_case_of(case)
+        obs, oacc, o_is_class, iacc, i_is_class, clevel = run_nest_real(pp, *c)
+        return oracle_nest(c[0], oacc, o_is_class, iacc, i_is_class, clevel, c[4], obs) is not None
     if "tree" in case:
         def tup(x):
             return tuple(tup(y) if isinstance(y, list) and y and isinstance(y[0], str) else y for y in x)
@@ -1153,6 +1904,8 @@ def replay(data):
             _, log = run_gate_real(pp, t, case["s"], True, via_parse_string=True)
             bad = oracle_gate(t, case["s"], True, log)
         return bad is not None
+    if "ops" in case:
+        return oracle_ops(case["ops"], run_ops_real(pp, case["base"], case["ops"])) is not None
     if "behs" in case:
         behs = [tuple(b) for b in case["behs"]]
         obs, acc, is_class = run_real(pp, case["mode"], case["kind"], case["k"], behs)
